@@ -30,6 +30,7 @@ warnings.filterwarnings("ignore")
 
 K_ADDNODE, K_ADDEDGE, K_DELEDGE, K_DELNODE, K_SWAP, K_SETATTR, K_UNDO, K_REDO, K_PAINT = range(1, 10)
 K_ENABLE, K_DISABLE = 10, 11
+KP_ADDNODE, KP_DELNODE, KP_ADDEDGE, KP_DELEDGE, KP_UPDTIDS, KP_UPDSEG, KP_UPDATTRS = range(21, 28)
 CUSTOM_KEY = "vx_custom"
 ECUSTOM_KEY = "vx_ecustom"
 
@@ -45,7 +46,7 @@ class Cfg:
     """One configuration of a run: universe + how the tracks object is constructed."""
 
     def __init__(self, N=3, T=3, dims=(), scale=(), use_scale=True, reg_cust=False,
-                 per_axis_pos=False, name="struct", enable=(), rebuild=None, embed=None):
+                 per_axis_pos=False, name="struct", enable=(), rebuild=None, embed=None, max_stroke=0):
         self.N, self.T = N, T
         self.dims = tuple(dims)
         self.scale = tuple(scale) if scale else tuple(1 for _ in dims)
@@ -60,6 +61,7 @@ class Cfg:
         # embed: [width, [real column of abstract column 0, 1, ...]]: the abstract frame is embedded in a
         # wider real array (last axis), e.g. to straddle the 64-voxel chunks of the GEFF exporter
         self.embed = embed
+        self.max_stroke = max_stroke    # 0: all strokes are fired; k: only strokes of <= k pixels
         self.P = int(np.prod(self.dims)) if self.dims else 0
 
     @property
@@ -70,7 +72,7 @@ class Cfg:
         return {"N": self.N, "T": self.T, "dims": list(self.dims), "scale": list(self.scale),
                 "use_scale": self.use_scale, "reg_cust": self.reg_cust,
                 "per_axis_pos": self.per_axis_pos, "name": self.name, "enable": self.enable,
-                "rebuild": self.rebuild, "embed": self.embed}
+                "rebuild": self.rebuild, "embed": self.embed, "max_stroke": self.max_stroke}
 
     @staticmethod
     def from_json(d):
@@ -153,6 +155,39 @@ class Driver:
             coords[-1] = np.array([cfg.embed[1][c] for c in coords[-1]], dtype=int)
         return (np.full(len(idx), t, dtype=int), *coords)
 
+    def apply_prim(self, c):
+        """Construct one primitive action directly (it applies itself). Returns the action object."""
+        from funtracks.actions import (AddEdge, AddNode, DeleteEdge, DeleteNode, UpdateNodeAttrs,
+                                       UpdateNodeSeg, UpdateTrackIDs)
+        tr = self.tracks
+        k = c[0]
+        if k == KP_ADDNODE:
+            n, t, tid, lid = c[1], c[2], c[3], c[4]
+            attrs = {tr.features.time_key: t, tr.features.tracklet_key: tid - self.shift}
+            if lid:
+                attrs[tr.features.lineage_key] = lid - self.shift
+            pixels = None
+            if self.cfg.has_seg:
+                pixels = self.pixels_of(t, 1)
+            else:
+                attrs["pos"] = user_pos(n)
+            return AddNode(tr, n, attrs, pixels)
+        if k == KP_DELNODE:
+            return DeleteNode(tr, c[1])
+        if k == KP_ADDEDGE:
+            return AddEdge(tr, (c[1], c[2]))
+        if k == KP_DELEDGE:
+            return DeleteEdge(tr, (c[1], c[2]))
+        if k == KP_UPDTIDS:
+            return UpdateTrackIDs(tr, c[1], c[2] - self.shift, (c[3] - self.shift) if c[3] else None)
+        if k == KP_UPDSEG:
+            t = int(tr.get_time(c[1]))
+            return UpdateNodeSeg(tr, c[1], self.pixels_of(t, c[2]), added=bool(c[3]))
+        if k == KP_UPDATTRS:
+            key = {1: CUSTOM_KEY, 2: tr.features.time_key}[c[2]]
+            return UpdateNodeAttrs(tr, c[1], {key: c[3] - 1})
+        raise RuntimeError(f"unknown call {c}")
+
     def apply(self, c):
         """Execute one call of the alphabet. Returns (ok, err, emits, ret)."""
         tr = self.tracks
@@ -194,6 +229,8 @@ class Driver:
                 # model value v is stored as v - 1, so that the falsy value 0 occurs
                 val = c[3] - 1 if c[2] != 5 else [float(c[3]), float(c[3])]
                 UserUpdateNodeAttrs(tr, c[1], {key: val})
+            elif KP_ADDNODE <= k <= KP_UPDATTRS:
+                self.last_prim = self.apply_prim(c)
             elif k == K_UNDO:
                 ret = bool(tr.undo())
             elif k == K_REDO:
@@ -468,6 +505,25 @@ def alphabet(drv: Driver, kinds=None, wide=True):
     if K_SETATTR in kinds:
         keys = (1, 2, 3, 4, 5, 6, 7, 8) if cfg.has_seg else (1, 2, 3, 4)
         out += [[K_SETATTR, n, k, 1, 0] for n in nodes for k in keys]
+    if KP_ADDNODE in kinds:
+        maxL = int(tr.track_annotator.max_lineage_id) + drv.shift
+        for n in nodes:
+            for t in range(T):
+                for i in range(1, maxT + 2):
+                    for l in sorted({0, 1, maxL + 1}):
+                        out.append([KP_ADDNODE, n, t, i, l])
+            out.append([KP_DELNODE, n, 0, 0, 0])
+            for i in range(1, maxT + 2):
+                for l in sorted({0, 1, maxL + 1}):
+                    out.append([KP_UPDTIDS, n, i, l, 0])
+            out.append([KP_UPDATTRS, n, 1, 2, 0])
+            out.append([KP_UPDATTRS, n, 2, 2, 0])
+            if cfg.has_seg:
+                for b in range(1, 2 ** cfg.P):
+                    for a in (0, 1):
+                        out.append([KP_UPDSEG, n, b, a, 0])
+        out += [[KP_ADDEDGE, u, v, 0, 0] for u in nodes for v in nodes]
+        out += [[KP_DELEDGE, u, v, 0, 0] for u in nodes for v in nodes]
     if K_ENABLE in kinds:
         masks = SWITCH_MASKS_SEG if cfg.has_seg else SWITCH_MASKS_NOSEG
         out += [[K_ENABLE, m, r, 0, 0] for m in masks for r in (0, 1)]
@@ -476,6 +532,8 @@ def alphabet(drv: Driver, kinds=None, wide=True):
         g = tr.graph
         for t in range(T):
             for bits in range(1, 2 ** cfg.P):
+                if cfg.max_stroke and bin(bits).count("1") > cfg.max_stroke:
+                    continue
                 for v in range(0, N + 1):
                     # a stroke with an existing label stays in that label's frame (C07 domain)
                     if v != 0 and v in g and int(g.nodes[v][tr.features.time_key]) != t:
